@@ -106,6 +106,13 @@ Theorem C01_legacy_call_hands_over_the_whole_channel : forall code k,
   Legacy.l_reqs (snd (Legacy.ltake_out code k)) = Legacy.l_reqs k ++ Legacy.l_out k.
 Proof. exact LegacyProps.ltake_out_hands_over_everything. Qed.
 
+(* ... and the observable form of the property holds of EVERY trace of the legacy host as well: for every app without
+   a handler for the probe event and every history, a Noop probe after any accepted call returns no effect and changes
+   nothing but the log. *)
+Theorem C01_ok_holds_of_legacy_model : forall hs acts os, Legacy.llookup 99 hs = [] ->
+  Legacy.under_legacy_core hs acts = Some os -> C01_probes acts os None = true.
+Proof. exact LegacyProps.C01_ok_holds_of_legacy_model. Qed.
+
 From Crux Require Rt.Ref Rt.RefCore Rt.RefCoreProps Rt.RefQuiesce.
 Theorem C01_ref_rerun_is_silent : forall fuel en c n c' n' o,
   Ref.run fuel en c n = Some (c', n', o) -> forall g m, fuel <= g -> Ref.run g en c' m = Some (c', m, Ref.ro0).
